@@ -56,8 +56,14 @@ func (r *Run) unguardedErrorSites(f *ssa.Function) []unguarded {
 				continue
 			}
 			ct := ff.TB.Of(c).String()
+			var curPath []*ssa.BasicBlock
 			isOK := func(a, bb *ssa.BasicBlock) bool {
-				for _, fc := range ff.EdgeFacts(a, bb) {
+				fs := ff.EdgeFacts(a, bb)
+				if len(curPath) > 0 && curPath[len(curPath)-1] == a {
+					// the test of a merged error says, on the way this walk arrived, that THIS call's error is nil
+					fs = append(append([]core.Fact{}, fs...), ff.PathTestFacts(curPath, bb)...)
+				}
+				for _, fc := range fs {
 					if fc.Kind == "ok" && fc.A != nil && fc.A.String() == ct {
 						return true
 					}
@@ -98,6 +104,7 @@ func (r *Run) unguardedErrorSites(f *ssa.Function) []unguarded {
 					return true
 				}
 				for _, s := range x.Succs {
+					curPath = path
 					if !ff.IsLiveEdge(x, s) || isOK(x, s) || !ff.PathFeasible(path, s) {
 						continue
 					}
